@@ -139,7 +139,7 @@ pub fn boundaries(sc: &Scenario) -> u64 {
     let mut n = 1; // collect_channel moves to a single-replica block
     for st in &sc.steps {
         if let Step::Un(_, op) = st {
-            if matches!(op, UnOp::Shuffle | UnOp::Gb(..) | UnOp::Repl(_) | UnOp::Broadcast | UnOp::Gl(..) | UnOp::Win(..)) {
+            if matches!(op, UnOp::Shuffle | UnOp::Gb(..) | UnOp::Repl(_) | UnOp::RepartBy(..) | UnOp::Broadcast | UnOp::Gl(..) | UnOp::Win(..)) {
                 n += 1;
             }
         }
@@ -258,9 +258,9 @@ pub fn c19(sc: &Scenario, rr: &RunResult) -> Vec<Violation> {
                     expect.push((p, r, format!("source {}", i)));
                 }
             }
-            Step::Un(_, UnOp::Repl(r)) => {
+            Step::Un(_, UnOp::Repl(r)) | Step::Un(_, UnOp::RepartBy(r, _)) => {
                 if let Some(p) = find("start") {
-                    expect.push((p, *r, format!("replication({:?})", r)));
+                    expect.push((p, *r, crate::plan::step_brief(st)));
                 }
             }
             Step::Un(_, UnOp::Shuffle) | Step::Un(_, UnOp::Gb(..)) | Step::Un(_, UnOp::Broadcast) => {
